@@ -9,6 +9,7 @@ import (
 	"fmt"
 	"os"
 	"path/filepath"
+	"reflect"
 	"runtime/debug"
 	"sort"
 	"strings"
@@ -74,6 +75,7 @@ const (
 	TransformFromSQL
 	ConfigLoad
 	LintAllRules
+	TransformRules
 	NKinds
 )
 
@@ -82,7 +84,8 @@ var names = [...]string{"tokenize-direct", "tokenize-pooled", "gosqlx.Parse", "g
 	"parser.ValidateBytes", "parser.ParseBytesWithTokens", "parser.ParseWithDialect", "AST.SQL+Format", "formatter.Format",
 	"gosqlx.Extract*", "security.ScanSQL", "security.Scan", "linter.LintString", "errors.SuggestKeyword", "observe-stats",
 	"monitor.Record*", "ast.SetSpan/GetSpan", "Parser(strict).ParseFromModelTokens", "GetParser+ApplyOptions+Parse+PutParser",
-	"Parser.ParseFromModelTokensWithPositions", "gosqlx.ParseWithContext(cancelled at poll k)", "transform.Apply(AddWhereFromSQL/AddJoinFromSQL rule values shared across calls)", "config.LoadFromFileCached", "linter(all rules incl. L006/L009).LintString (race/crash only)"}
+	"Parser.ParseFromModelTokensWithPositions", "gosqlx.ParseWithContext(cancelled at poll k)", "transform.Apply(AddWhereFromSQL/AddJoinFromSQL rule values shared across calls)", "config.LoadFromFileCached", "linter(all rules incl. L006/L009).LintString (race/crash only)",
+	"transform.Apply(caller-built rules: replace/remove/add where, columns, joins, paging, ordering, tables; detached parts kept)"}
 
 func (k Kind) String() string { return names[k] }
 
@@ -133,7 +136,7 @@ func Gen(src *tape.Source, enabled []Kind) Op {
 		o.SQL = g.Any()
 		o.SQL2 = g.Any()
 	case Observe, Monitor:
-	case Extract, ScanTree, TreeSQL, Span, TransformFromSQL:
+	case Extract, ScanTree, TreeSQL, Span, TransformFromSQL, TransformRules:
 		o.SQL = g.Valid()
 	default:
 		o.SQL = g.Any()
@@ -429,6 +432,111 @@ func (o Op) Exec(hold bool) (res string, held []Held) {
 			_ = transform.Apply(a.Statements[0], transform.SetLimit(10+o.Flag), transform.SetOffset(3))
 		}
 		res = treeCanon(a, aerr)
+		keepTree(a)
+	case TransformRules:
+		// rules built by the caller from its own nodes and from parts of the tree:
+		// what a rule detaches stays the caller's, what it attaches becomes the
+		// tree's; nothing the caller still holds may be recycled or zeroed
+		a, err := gosqlx.Parse(o.SQL)
+		if err != nil || len(a.Statements) == 0 {
+			res = canon.Err(err)
+			keepTree(a)
+			break
+		}
+		st := a.Statements[0]
+		sel, _ := st.(*ast.SelectStatement)
+		fresh := func() ast.Expression {
+			return &ast.BinaryExpression{Left: &ast.Identifier{Name: "role"}, Operator: "=", Right: &ast.LiteralValue{Value: "admin", Type: "string"}}
+		}
+		var where *ast.Expression
+		switch x := st.(type) {
+		case *ast.SelectStatement:
+			where = &x.Where
+		case *ast.UpdateStatement:
+			where = &x.Where
+		case *ast.DeleteStatement:
+			where = &x.Where
+		}
+		var aerr error
+		var detached []any
+		switch (len(o.SQL) + o.Flag*5) % 12 {
+		case 0: // widen the filter: the new predicate wraps the old one
+			if where != nil && *where != nil {
+				aerr = transform.Apply(st, transform.ReplaceWhere(&ast.BinaryExpression{Left: *where, Operator: "OR", Right: fresh()}))
+			}
+		case 1: // keep the old predicate (to move it elsewhere), put a new one
+			if where != nil && *where != nil {
+				detached = append(detached, *where)
+			}
+			aerr = transform.Apply(st, transform.ReplaceWhere(fresh()))
+		case 2:
+			if where != nil && *where != nil {
+				detached = append(detached, *where)
+			}
+			aerr = transform.Apply(st, transform.RemoveWhere())
+		case 3:
+			aerr = transform.Apply(st, transform.AddWhere(fresh()), transform.AddWhere(fresh()))
+		case 4:
+			if sel != nil && len(sel.Columns) > 0 {
+				detached = append(detached, sel.Columns[0])
+			}
+			aerr = transform.Apply(st, transform.AddColumn(&ast.Identifier{Name: "extra_col"}), transform.RemoveColumn("id"), transform.RemoveColumn("name"))
+		case 5:
+			aerr = transform.Apply(st, transform.ReplaceColumn("id", "pk"), transform.ReplaceColumn("x", "x2"), transform.AddSelectStar())
+		case 6:
+			if sel != nil && len(sel.Joins) > 0 && sel.Joins[0].Condition != nil {
+				detached = append(detached, sel.Joins[0].Condition)
+			}
+			aerr = transform.Apply(st, transform.AddJoin("LEFT", "audit", fresh()), transform.RemoveJoin("j1"), transform.RemoveJoin("orders"))
+		case 7:
+			aerr = transform.Apply(st, transform.SetLimit(7), transform.SetOffset(2), transform.RemoveLimit(), transform.SetLimit(9), transform.RemoveOffset())
+		case 8:
+			if sel != nil && len(sel.OrderBy) > 0 {
+				detached = append(detached, sel.OrderBy[0].Expression)
+			}
+			aerr = transform.Apply(st, transform.RemoveOrderBy(), transform.AddOrderBy("created_at", true), transform.AddOrderBy("id", false))
+		case 9:
+			aerr = transform.Apply(st, transform.ReplaceTable("t", "t_v2"), transform.ReplaceTable("users", "people"), transform.AddTableAlias("orders", "o9"), transform.QualifyColumns("t_v2"))
+		case 10: // the same caller-built node given to two trees' rules is the caller's mistake; two rules, two nodes
+			aerr = transform.Apply(st, transform.AddWhere(fresh()), transform.AddColumn(fresh()), transform.AddJoin("INNER", "roles", fresh()))
+		default:
+			if where != nil && *where != nil {
+				old := *where
+				aerr = transform.Apply(st, transform.RemoveWhere(), transform.AddWhere(old), transform.AddWhere(fresh()))
+			}
+		}
+		// only what really left the tree is the caller's alone
+		stillInTree := map[uintptr]bool{}
+		if sel != nil {
+			for _, c := range sel.Columns {
+				stillInTree[reflect.ValueOf(c).Pointer()] = true
+			}
+			for _, j := range sel.Joins {
+				if j.Condition != nil {
+					stillInTree[reflect.ValueOf(j.Condition).Pointer()] = true
+				}
+			}
+			for _, ob := range sel.OrderBy {
+				if ob.Expression != nil {
+					stillInTree[reflect.ValueOf(ob.Expression).Pointer()] = true
+				}
+			}
+		}
+		if where != nil && *where != nil {
+			stillInTree[reflect.ValueOf(*where).Pointer()] = true
+		}
+		kept := detached[:0]
+		for _, d := range detached {
+			if rv := reflect.ValueOf(d); rv.Kind() == reflect.Ptr && !stillInTree[rv.Pointer()] {
+				kept = append(kept, d)
+			}
+		}
+		detached = kept
+		res = treeCanon(a, aerr)
+		for _, d := range detached {
+			res += " detached=" + canon.Of(d)
+			keep("detached-part", d, nil)
+		}
 		keepTree(a)
 	case ParseCtxCancelled:
 		// Flag and the input length pick the poll at which the context turns done
